@@ -106,7 +106,7 @@ def run(run: core.Run, tier: str):
   core.assert_repo_import()
   import tensorflow as tf
   rng = np.random.default_rng(run.seed)
-  run.extra["rule"] = (
+  run.extra["rule_f32"] = (
       "rnd32/isF32: random float64 over exponents -160..100, exact float32 values, exact midpoints of adjacent "
       "float32 values and their float64 neighbours, subnormal edge cases, vs numpy float64->float32; "
       "quantizers: seeded stratified sample of quantized_bits / quantized_linear / plain quantized_relu "
@@ -183,11 +183,10 @@ def run(run: core.Run, tier: str):
       run.count("%s:outside:%s:%s" % (kind, region, "same" if fy == e else "DIFFERS"))
       if a is None:
         continue
-      # clause of C01 on the real output: a code of the declared format
+      # OUTSIDE the property's envelope (|x| >= 2^24 output steps): the float32 residual x + (-x + xq) may
+      # leave the lattice (Props.C01F.*_envelope_counterexample).  Not a C01 violation - counted only.
       k = fy / (gain * step)
       if k.denominator != 1 or not (lo <= k <= hi):
-        run.violate("emits_only_codes", {"kind": kind, "why": "f32-residual-inexact", "region": region},
-                    {"config": label, "x": repr(float(x)), "y": str(fy), "exact_model": str(e),
-                     "code": str(k), "lo": lo, "hi": hi}, mirrored=mirrored)
+        run.count("%s:outside:%s:off-lattice" % (kind, region))
   run.assumptions.append("K.pow(2.0, k) is exact for integer k; float32 kernels (+,-,*,/) are correctly rounded "
                          "(both are what this tie checks bit for bit)")
